@@ -10,6 +10,7 @@ CONSTANTS
   Refs <- I_One
   Masses <- I_12
   IPoss <- V_One
+  IRots <- R_Y
   SitePos <- V_One
   SiteRots <- R_XZ
   Zones <- Z_One
@@ -21,8 +22,8 @@ CONSTANTS
   MinSensors = 1
   MaxSensors = 1
   Kinds <- K_Frames
-  ObjTypes <- OT_Two
-  RefTypes <- OT_Two
+  ObjTypes <- OT_BS
+  RefTypes <- OT_BX
   Cutoffs <- I_01
   UserDims <- I_12
   Qs <- I_One
